@@ -44,7 +44,7 @@ ImpliedTypeRef(gt) ==
 RECURSIVE ToCtyRef(_)
 ToCtyRef(gv) ==
   LET t == gv.t IN
-  CASE t.g \in NumKinds -> K(TNum, gv.n)
+  CASE t.g \in NumKinds \cup {"bigint", "bigfloat"} -> K(TNum, gv.n)
     [] t.g = "string" -> StrV(gv.s) [] t.g = "bool" -> BoolV(gv.b)
     [] t.g = "slice" -> IF gv.nil THEN Null(ImpliedTypeRef(t)) ELSE SeqV(ImpliedTypeRef(t), [i \in 1..Len(gv.vs) |-> ToCtyRef(gv.vs[i])])
     [] t.g = "map" -> IF gv.nil THEN Null(ImpliedTypeRef(t)) ELSE MapV(ImpliedTypeRef(t), [k \in DOMAIN gv.m |-> ToCtyRef(gv.m[k])])
@@ -57,7 +57,7 @@ ToCtyRef(gv) ==
 RECURSIVE GoEq(_, _)
 GoEq(x, y) ==
   /\ x.t = y.t
-  /\ CASE x.t.g \in NumKinds -> IF HasRank(x.n) /\ HasRank(y.n) THEN NumSame(x.n, y.n) ELSE x.n = y.n
+  /\ CASE x.t.g \in NumKinds \cup {"bigint", "bigfloat"} -> IF HasRank(x.n) /\ HasRank(y.n) THEN NumSame(x.n, y.n) ELSE x.n = y.n
        [] x.t.g = "slice" -> x.nil = y.nil /\ (~x.nil => Len(x.vs) = Len(y.vs) /\ \A i \in 1..Len(x.vs) : GoEq(x.vs[i], y.vs[i]))
        [] x.t.g = "map" -> x.nil = y.nil /\ (~x.nil => DOMAIN x.m = DOMAIN y.m /\ \A k \in DOMAIN x.m : GoEq(x.m[k], y.m[k]))
        [] x.t.g = "ptr" -> x.nil = y.nil /\ (~x.nil => GoEq(x.v, y.v))
@@ -103,7 +103,7 @@ NonNFC(gv) == CASE gv.t.g = "string" -> \E i \in 1..(Len(gv.s) - 1) : gv.s[i] = 
                 [] OTHER -> FALSE
 GrtFailed(e) ==      \* [gv, it = [ok, t], cv = R, back = [ok, gv]]
   (IF (~e.it.ok /\ e.it.fail = "panic") \/ (~e.cv.ok /\ e.cv.fail = "panic") \/ (~e.back.ok /\ e.back.fail = "panic") THEN {"C18.NoPanic"} ELSE {})
-  \cup (IF e.it.ok /\ TEquals(e.it.t, ImpliedTypeRef(e.gv.t)) THEN {} ELSE {"C18.ImpliedType"})
+  \cup (IF e.it.ok /\ TEquals(e.it.t, ImpliedTypeRef(e.gv.t)) THEN {} ELSE {"C18.ImpliedType"})   \* (it.given: type named by the caller, big numbers)
   \cup (IF e.cv.ok /\ CtyMatchDeep(e.cv.val, ToCtyRef(e.gv)) THEN {} ELSE IF NonNFC(e.gv) THEN {"C18.RoundTripExact.NonNFCString"} ELSE {"C18.ToCtyIsRef"})
   \cup (IF e.cv.ok /\ ~WellFormed(e.cv.val) THEN {"C06.WellFormed"} ELSE {})
   \cup (IF e.back.ok /\ GoEq(e.back.gv, e.gv) THEN {} ELSE IF NonNFC(e.gv) THEN {"C18.RoundTripExact.NonNFCString"} ELSE {"C18.RoundTripExact"})
